@@ -94,7 +94,7 @@ class Float(numerical.Numerical):
         **kwargs,
     ):
         if step is not None:
-            self.step = float(step)
+            step = float(step)
         super().__init__(
             name=name,
             min_value=float(min_value),
